@@ -81,7 +81,7 @@ impl Ctx {
     #[inline]
     pub fn out_of_time(&mut self) -> bool {
         if self.capped { return true }
-        if self.evaluations & 0x3ff == 0 && self.started.elapsed().as_secs_f64() > self.wall_cap_s {
+        if self.started.elapsed().as_secs_f64() > self.wall_cap_s {
             self.capped = true;
         }
         self.capped
